@@ -14,6 +14,10 @@ import time
 
 from ..core import pool
 
+import warnings
+# klepto warns once per read that a compressed file is not memory-mapped (compression + memmode configurations)
+warnings.filterwarnings('ignore', message='.*appears to be a zip.*')
+
 # --------------------------------------------------------------------------
 # the function under memoisation
 
@@ -129,7 +133,7 @@ def make_function(cfg, log, ctl):
                 exc = ctl['raise']
                 ctl['raised'] = exc
                 raise exc
-            if not isinstance(x, (int, float)):
+            if not isinstance(x, (int, float, str)):
                 return ('u', type(x).__name__)
             return expected_result(cfg, (x, y))
     g.log = log
@@ -149,6 +153,10 @@ def call_table(cfg):
         calls = [((1, 7), {}), ((2, 7), {}), ((1,), {}), ((1, 8), {'o': 1}), ((2,), {'o': 1})][:max(3, n)]
         alts = [((), {'x': 1}), ((2, 7), {})]
         return calls + alts[:min(spell, 1)]
+    if cfg.get('args') == 'long':
+        # long string arguments with a common head: under a string keymap their keys exceed a file name's length
+        calls = [(('L' * 300 + 'a',), {}), (('L' * 300 + 'b',), {}), (('L' * 235 + 'c',), {}), ((1,), {})][:max(3, n)]
+        return calls + [((), {'x': 'L' * 300 + 'a'})][:min(spell, 1)]
     if cfg.get('args') == 'float':
         # floats that need rounding under tol, positionally and by keyword
         calls = [((1.26,), {}), ((2.55,), {}), ((3,), {'y': 2.71828}), ((4.449,), {})][:n]
@@ -235,6 +243,10 @@ def open_archive(kind, path, cached):
         return ka.dir_archive(path + '_dj', cached=cached, protocol='json')
     if kind == 'dirfast':
         return ka.dir_archive(path + '_df', cached=cached, compression=3)
+    if kind == 'dirjsonfast':
+        return ka.dir_archive(path + '_djf', cached=cached, protocol='json', compression=3)
+    if kind == 'dirfastmm':
+        return ka.dir_archive(path + '_dfm', cached=cached, compression=3, memmode='r+')
     if kind == 'sql':
         return ka.sqltable_archive('sqlite:///%s.db?table=memo' % path, cached=cached)
     if kind == 'sqlmem':
@@ -242,7 +254,7 @@ def open_archive(kind, path, cached):
     raise ValueError(kind)
 
 
-PERSISTENT = ('file', 'filejson', 'filesrc', 'filesrcbare', 'dir', 'dirjson', 'dirfast', 'dirsrc', 'sql')
+PERSISTENT = ('file', 'filejson', 'filesrc', 'filesrcbare', 'dir', 'dirjson', 'dirfast', 'dirjsonfast', 'dirfastmm', 'dirsrc', 'sql')
 
 
 def decorator_class(cfg):
